@@ -94,10 +94,12 @@ pub fn foreign_archive(r: &mut Rng, tiles: &BTreeMap<u64, Vec<u8>>, ic: u8, leaf
     let (root, leaves) = if leaf_size == 0 || es.len() <= leaf_size { (enc(&es), Vec::new()) } else {
         let mut leaves = Vec::new(); let mut ptrs = Vec::new();
         for ch in es.chunks(leaf_size) { let b = enc(ch); ptrs.push(E { id: ch[0].id, off: leaves.len() as u64, len: b.len() as u32, run: 0 }); leaves.extend(b); }
-        if depth2 && ptrs.len() > 2 {
+        // nested pointer levels: root -> pointer leaf (-> pointer leaf) -> tile leaf, i.e. tile leaves at depth 2 or 3 (the deepest the reader accepts)
+        let mut levels = 1;
+        while depth2 && ptrs.len() > 2 && levels < 3 {
             let mut p2 = Vec::new();
             for ch in ptrs.chunks(2) { let b = enc(ch); p2.push(E { id: ch[0].id, off: leaves.len() as u64, len: b.len() as u32, run: 0 }); leaves.extend(b); }
-            ptrs = p2;
+            ptrs = p2; levels += 1;
         }
         (enc(&ptrs), leaves)
     };
@@ -686,9 +688,38 @@ pub fn c13() -> Result<u64, String> {
             if h.num_addressed_tiles != tiles.len() as u64 { return Err("header differs through short reads".into()); }
         }
     }
+    {   // an archive with leaf directories through a stream that accepts short writes / delivers short reads
+        let tiles = big_tiles(6000);
+        let (want, _) = write_at(build(&tiles, Compression::None, &Default::default()), 0).map_err(|e| e.to_string())?;
+        for sched in [vec![4096usize, 1, 100], vec![1000], vec![16384, 3]] { n += 1;
+            let mut w = Frag { inner: Cursor::new(Vec::new()), sched: sched.clone(), k: 0 };
+            build(&tiles, Compression::None, &Default::default()).to_writer(&mut w).map_err(|e| format!("write of an archive with leaf directories through a fragmenting stream {sched:?}: {e}"))?;
+            if w.inner.get_ref() != &want { return Err(format!("an archive with leaf directories written through a stream that splits writes as {sched:?} differs from the in-memory output")); }
+            let rd = Frag { inner: Cursor::new(want.clone()), sched: sched.clone(), k: 0 };
+            let mut pm = PMTiles::from_reader(rd).map_err(|e| format!("open of an archive with leaf directories through short reads {sched:?}: {e}"))?;
+            for (id, v) in tiles.iter().step_by(500) { if pm.get_tile_by_id(*id).map_err(|e| e.to_string())?.as_ref() != Some(v) { return Err(format!("tile {id} of an archive with leaf directories differs through short reads {sched:?}")); } }
+        }
+    }
     Ok(n)
 }
 
+/// async stream that delivers at most `chunk` bytes per poll and is Pending every third poll
+struct AChunk { inner: futures::io::Cursor<Vec<u8>>, chunk: usize, tick: u32 }
+impl futures::io::AsyncRead for AChunk {
+    fn poll_read(mut self: std::pin::Pin<&mut Self>, cx: &mut std::task::Context<'_>, buf: &mut [u8]) -> std::task::Poll<std::io::Result<usize>> {
+        self.tick += 1;
+        if self.tick % 3 == 0 { cx.waker().wake_by_ref(); return std::task::Poll::Pending; }
+        let k = buf.len().min(self.chunk);
+        let me = &mut *self;
+        std::pin::Pin::new(&mut me.inner).poll_read(cx, &mut buf[..k])
+    }
+}
+impl futures::io::AsyncSeek for AChunk {
+    fn poll_seek(mut self: std::pin::Pin<&mut Self>, cx: &mut std::task::Context<'_>, pos: SeekFrom) -> std::task::Poll<std::io::Result<u64>> {
+        let me = &mut *self;
+        std::pin::Pin::new(&mut me.inner).poll_seek(cx, pos)
+    }
+}
 pub fn c12() -> Result<u64, String> {
     let mut r = Rng::new(seed() ^ 12);
     let mut n = 0u64;
@@ -714,6 +745,39 @@ pub fn c12() -> Result<u64, String> {
                 let mut ia: Vec<u64> = pa.tile_ids().into_iter().copied().collect(); ia.sort_unstable();
                 let mut is: Vec<u64> = ps.tile_ids().into_iter().copied().collect(); is.sort_unstable();
                 if ia != is { return Err(format!("range-filtered open with {rg:?} of an archive holding tiles {:?}..: async reader yields ids {:?}, sync reader {:?} ({c:?})", tiles.keys().take(4).collect::<Vec<_>>(), &ia[..ia.len().min(6)], &is[..is.len().min(6)])); }
+            }
+        }
+    }
+    // foreign archives with nested leaf directories (tile leaves down to depth 3): sync and async readers agree
+    for round in 0..24 { n += 1;
+        let tiles = gen_tiles(&mut r, [9, 25, 60][round % 3], 1 + (round % 5) as u64);
+        let ic = 1 + (round % 4) as u8;
+        let b = foreign_archive(&mut r, &tiles, ic, [1, 2, 3][round % 3], true);
+        let desc = format!("foreign nested archive ({} tiles, compression code {ic}, leaf size {})", tiles.len(), [1, 2, 3][round % 3]);
+        let s = PMTiles::from_bytes(b.clone()).map_err(|e| e.to_string());
+        let a = block_on(PMTiles::from_async_reader(futures::io::Cursor::new(b.clone()))).map_err(|e| e.to_string());
+        match (s, a) {
+            (Ok(s), Ok(mut a)) => {
+                let mut is: Vec<u64> = s.tile_ids().into_iter().copied().collect(); is.sort_unstable();
+                let mut ia: Vec<u64> = a.tile_ids().into_iter().copied().collect(); ia.sort_unstable();
+                if is != ia { return Err(format!("{desc}: sync reader sees {} ids, async reader {}", is.len(), ia.len())); }
+                for (k, v) in tiles.iter().take(10) { if block_on(a.get_tile_by_id_async(*k)).map_err(|e| e.to_string())?.as_ref() != Some(v) { return Err(format!("{desc}: async lookup of tile {k} differs")); } }
+            }
+            (Err(_), Err(_)) => {}
+            (s, a) => return Err(format!("{desc}: sync open gives {:?}, async open gives {:?}", s.map(|p| p.num_tiles()), a.map(|p| p.num_tiles()))),
+        }
+    }
+    // an async stream that hands out its bytes in small pieces (and is sometimes Pending): same header and archive as the sync reader
+    {
+        let tiles = gen_tiles(&mut r, 7, 2);
+        for c in COMPS { let (b, _) = write_at(build(&tiles, c, &Default::default()), 0).map_err(|e| e.to_string())?;
+            for chunk in [1usize, 3, 100, 126] { n += 1;
+                let hs = Header::from_bytes(&b[..127]).map_err(|e| e.to_string())?;
+                let ha = block_on(Header::from_async_reader(&mut AChunk { inner: futures::io::Cursor::new(b.clone()), chunk, tick: 0 })).map_err(|e| format!("async header through a stream delivering {chunk} bytes per poll: {e}"))?;
+                if ha.num_addressed_tiles != hs.num_addressed_tiles || ha.max_zoom != hs.max_zoom || ha.tile_data_offset != hs.tile_data_offset || ha.internal_compression != hs.internal_compression {
+                    return Err(format!("async header read through a stream delivering {chunk} bytes per poll differs from the sync header ({c:?})")); }
+                let mut a = block_on(PMTiles::from_async_reader(AChunk { inner: futures::io::Cursor::new(b.clone()), chunk, tick: 0 })).map_err(|e| format!("async open through a stream delivering {chunk} bytes per poll ({c:?}): {e}"))?;
+                for (k, v) in &tiles { if block_on(a.get_tile_by_id_async(*k)).map_err(|e| e.to_string())?.as_ref() != Some(v) { return Err(format!("async lookup of tile {k} through a stream delivering {chunk} bytes per poll differs ({c:?})")); } }
             }
         }
     }
